@@ -1574,6 +1574,21 @@ def declared_windows(ctx, report):
 
 # ---- R10: messages framed by a library decoder ---------------------------------------------------------------------------
 
+def constant_of_source(e):
+    """an integer literal, an upper case name or class level constant (``cls.HEADER_SIZE``), or arithmetic over those"""
+    if isinstance(e, ast.Constant):
+        return isinstance(e.value, int)
+    if isinstance(e, ast.Name):
+        return e.id.isupper() or e.id.lstrip('_').isupper()
+    if isinstance(e, ast.Attribute):
+        return isinstance(e.value, ast.Name) and e.attr.lstrip('_').replace('_', 'A').isupper()
+    if isinstance(e, ast.BinOp):
+        return constant_of_source(e.left) and constant_of_source(e.right)
+    if isinstance(e, ast.UnaryOp):
+        return constant_of_source(e.operand)
+    return False
+
+
 def buffer_length_decisions(ctx, report, RULE='C03.R13'):
     """What a frame is parsed into depends on its own n bytes only: the same frame followed by other data gives the same object
     and the same n.  The one quantity through which the bytes *after* the frame reach the parser is the length of the whole
@@ -1581,7 +1596,8 @@ def buffer_length_decisions(ctx, report, RULE='C03.R13'):
     an ``if`` that raises NotEnoughData / TooMuchData); every other comparison that reads it - a look-ahead that asks whether a
     vector "lasts until the end", a branch on what is left - decides differently for the same frame in a longer buffer.
     Functions with a parameter ``parsable`` are read; comparisons against an item's own length while selecting candidates
-    (``len(code) <= len(parsable)``, a filter that cannot accept more than the buffer holds) are the reviewed exception."""
+    (``len(code) <= len(parsable)``, a filter that cannot accept more than the buffer holds) and comparisons with a constant of the
+    source ("are the first k octets there", the guard in front of reading them) are the reviewed exceptions."""
     report.rule(RULE, 'the length of the whole buffer is compared only to decide that data is missing or left over (a frame is parsed the same whatever follows it)')
     n = 0
     for f in ctx.model.functions():
@@ -1609,13 +1625,29 @@ def buffer_length_decisions(ctx, report, RULE='C03.R13'):
                 p = parents[id(p)]
             st = parents.get(id(p))
             ok = False
+
+            def raises_length_error(stmts):
+                raised = [ast.unparse(r.exc).split('(')[0] for b in stmts for r in ast.walk(b) if isinstance(r, ast.Raise) and r.exc is not None]
+                raised += [ast.unparse(c_.args[0]).split('(')[0] for b in stmts for c_ in ast.walk(b)
+                           if isinstance(c_, ast.Call) and ast.unparse(c_.func).endswith('raise_from') and c_.args]
+                return bool(raised) and all(r in ('NotEnoughData', 'TooMuchData') for r in raised)
             if isinstance(st, ast.If) and any(y is x for y in ast.walk(st.test)):
-                raised = [ast.unparse(r.exc).split('(')[0] for b in st.body for r in ast.walk(b) if isinstance(r, ast.Raise) and r.exc is not None]
-                raised += [ast.unparse(c.args[0]).split('(')[0] for b in st.body for c in ast.walk(b)
-                           if isinstance(c, ast.Call) and ast.unparse(c.func).endswith('raise_from') and c.args]
-                ok = bool(raised) and all(r in ('NotEnoughData', 'TooMuchData') for r in raised)
-            if not ok and isinstance(parents.get(id(x)), ast.comprehension) and len(x.ops) == 1 and isinstance(x.ops[0], (ast.LtE, ast.Lt)) and \
-                    mentions(x.comparators[0]) and not mentions(x.left):
+                ok = raises_length_error(st.body) or (bool(st.orelse) and raises_length_error(st.orelse))
+                if not ok and st.body and isinstance(st.body[-1], (ast.Return, ast.Continue, ast.Break)):
+                    # ``if len(parsable) <= n: return obj`` in front of ``raise TooMuchData(...)``: the same decision, inverted
+                    holder = parents.get(id(st))
+                    for field in ('body', 'orelse', 'finalbody'):
+                        block = getattr(holder, field, None)
+                        if isinstance(block, list) and any(b is st for b in block):
+                            idx = [i for i, b in enumerate(block) if b is st][0]
+                            ok = idx + 1 < len(block) and isinstance(block[idx + 1], (ast.Raise, ast.Expr)) and raises_length_error([block[idx + 1]])
+            # "are the first k octets there" (k a constant of the source): a guard in front of reading them, not a look at what follows
+            others = [e for e in [x.left] + list(x.comparators) if not mentions(e)]
+            if not ok and others and all(constant_of_source(e) for e in others):
+                ok = True
+            if not ok and isinstance(parents.get(id(x)), ast.comprehension) and len(x.ops) == 1 and (
+                    (isinstance(x.ops[0], (ast.LtE, ast.Lt)) and mentions(x.comparators[0]) and not mentions(x.left)) or
+                    (isinstance(x.ops[0], (ast.GtE, ast.Gt)) and mentions(x.left) and not mentions(x.comparators[0]))):
                 ok = True       # candidates no longer than the buffer: a longer buffer admits more candidates only for a longer frame
             if not ok:
                 report.add(RULE, '%s@buffer-length[%s]' % (f.construct, ast.unparse(x)[:50]),
